@@ -908,7 +908,7 @@ func validatePaths(
 		return err
 	}
 	if _, err := slicesext.MapError(
-		targetPaths,
+		targetExcludePaths,
 		normalpath.NormalizeAndValidate,
 	); err != nil {
 		return err
